@@ -43,6 +43,15 @@ PROPS = {
         "assumptions": ["error-free programs under non-binding limits"],
         "open_obligations": ["attenuation_monotone: authorize (blocks ++ [b]) az = ok i -> authorize blocks az = ok i, as one theorem over the executable model"],
     },
+    "C11": {
+        "module": "BiscuitModel.Props.C11",
+        "streams": ["determ"],
+        "level_text": "Lean 4 theorems with the iteration order of the hash stores as an explicit parameter (two orders = two lists with the same members): outcome_order_independent_partial (same facts and rules inserted in any order, both runs Ok, no binding of a check/policy fails => same acceptance, policy index and failed-check list; built on C05 run_order_independent and Lemmas/Congr.decide_same), failed_checks_in_declaration_order, and order_dependent_witness + witness_has_error showing that the full statement (including which error is reported) is false of the code. Tie: every generated case is built and authorized 16 (quick) / 128 (thorough) times from scratch with fresh hash seeds, permuted insertion order of authorizer facts and rules, reload and clone(); the set of distinct outcomes must be a singleton equal to the model's outcome unless the model marks the case as order-dependent (a matching and a failing binding coexist, or two different errors).",
+        "level_note": "Partial by nature: hash seeds are runtime behaviour; the model carries the order as a parameter. The order-dependence of error reporting is a recorded known finding (known_findings.jsonl C11-error-vs-match-order), replayed on every run.",
+        "rule": "determ stream: authz-style cases (half of them with expressions that fail for some bindings), N fresh builds each; non-trivial = case with at least one check or policy whose body is non-empty and a decision outcome; distinct = distinct case JSON",
+        "trusted_base": ["harness/src/s_determ.rs", "RandomState reseeding per HashMap in std (fresh builds give fresh iteration orders)"],
+        "assumptions": ["iteration orders actually exercised are those std's RandomState produces in N builds"],
+    },
 }
 
 
@@ -163,7 +172,22 @@ def cmp_atten(case, impl, model):
     return "skip" if skipped else None
 
 
-COMPARATORS = {"expr": cmp_default, "engine": cmp_engine, "authz": cmp_authz, "atten": cmp_atten}
+def cmp_determ(case, impl, model):
+    if "driver_error" in model:
+        return "driver error: %s" % model["driver_error"]
+    if "panic" in impl:
+        return "implementation panicked: %s" % impl["panic"]
+    outs = impl["outcomes"]
+    if len(outs) > 1:
+        if model.get("amb"):
+            return "order-dependent outcome (model: a matching binding and a failing binding coexist): %d distinct outcomes" % len(outs)
+        return "%d distinct outcomes over %d identical builds: %s" % (len(outs), impl["n"], json.dumps([{k: o.get(k) for k in ("r", "p", "kind", "failed")} for o in outs])[:300])
+    if model.get("amb"):
+        return "skip"
+    return cmp_authz(case, outs[0], model)
+
+
+COMPARATORS = {"expr": cmp_default, "engine": cmp_engine, "authz": cmp_authz, "atten": cmp_atten, "determ": cmp_determ}
 
 
 def nontrivial(stream, case, impl):
@@ -171,6 +195,8 @@ def nontrivial(stream, case, impl):
         return impl.get("err") != "InvalidStack"
     if stream == "authz":
         return impl.get("r") in ("ok", "nomatch", "unauth")
+    if stream == "determ":
+        return impl.get("outcomes", [{}])[0].get("r") in ("ok", "nomatch", "unauth")
     if stream == "atten":
         return impl["ext"].get("r") in ("ok", "nomatch", "unauth") and impl["base"].get("r") in ("ok", "nomatch", "unauth")
     if stream == "engine":
@@ -250,7 +276,13 @@ def matches_known(k, d):
     return MATCHERS[m](k, d)
 
 
-MATCHERS = {}
+def match_amb(k, d):
+    """the known order-dependence: an expression error and a successful (or counter-example) binding coexist
+    for one query; which one decides depends on the iteration order of the hash-based fact store"""
+    return bool(d["model"].get("amb")) and d["why"].startswith("order-dependent outcome")
+
+
+MATCHERS = {"amb": match_amb}
 
 
 # ---------------------------------------------------------------- shrinking
